@@ -26,5 +26,14 @@ need("src/RefreshPattern.h", "#define REFRESH_DEFAULT_MAX static_cast<time_t>(25
 need("src/RefreshPattern.h", "max_stale(-1),", "the default rule's max_stale")
 need("src/Store.h", "const HttpReply *hasFreshestReply() const { return mem_obj ? &mem_obj->freshestReply() : nullptr; }", "StoreEntry::hasFreshestReply()")
 need("include/autoconf.h", "#define USE_HTTP_VIOLATIONS 1", "USE_HTTP_VIOLATIONS")
+need("include/autoconf.h", "#define USE_HTCP 1", "USE_HTCP (refreshCountsEnum)")
+need("include/autoconf.h", "#define USE_CACHE_DIGESTS 0", "USE_CACHE_DIGESTS (refreshCountsEnum)")
+need("src/MemObject.h", "const HttpReply &baseReply() const { return *reply_; }", "MemObject::baseReply()")
+need("src/http/Message.h", "int64_t content_length = 0;", "Http::Message::content_length")
+need("src/SquidConfig.h", "time_t minimum_expiry_time;", "Config.minimum_expiry_time")
+need("src/SquidConfig.h", "RefreshPattern *Refresh;", "Config.Refresh")
+need("src/refresh.cc", "RefreshPattern::regex() const\n{\n    assert(regex_);\n    return *regex_;\n}", "RefreshPattern::regex()")
+need("src/RefreshPattern.h", "        uint64_t matchTests;\n        uint64_t matchCount;", "RefreshPattern::stats")
+need("src/RefreshPattern.h", "    RefreshPattern *next;", "RefreshPattern::next")
 print("DROP: EBIT_TEST, MAX_STALE_ANY, noCacheHack(), hasFreshestReply(), the default refresh rule and USE_HTTP_VIOLATIONS are restated in stubs.h/wrap.cc (checked textually at extraction time)")
 print("DROP: src/Store.h StoreEntry::lastModified() is restated in stubs.h (checked textually equal at extraction time)")
